@@ -1,11 +1,153 @@
-(* C12 — anisotropy and rotation act as a linear change of coordinates.  Only statements. *)
+(* C12 — anisotropy and rotation act as a linear change of coordinates.  Only statements; proofs in c12/*.v.
+   The functions are the Gallina model C12_Model.v of gstools/tools/geometric.py and of the CovModel coordinate
+   methods, instantiated at the real numbers [Rops] (the same definitions are extracted, run on floats and compared
+   with the Python implementation on every check).  Matrices are lists of rows; [mof M i j] is entry (i,j);
+   [wfm r c M] says that M has r rows of length c; [ratio dim anis k] is the k-th entry of (1, anis') where anis'
+   is the padded ratio list set_anis dim anis; [sumf n f] = f 0 + ... + f (n-1). *)
 From Coq Require Import Reals List.
-From GS Require Import Num Loops C12_Model C12_Mat C12_Bridge C12_Proofs.
+From GS Require Import Num Loops C12_Model C12_Mat C12_Bridge C12_Proofs C12_Proofs2.
 Import ListNotations.
 Open Scope R_scope.
 
+(* every plane (i,j) has i < j < dim and there are exactly as many planes as angles (any number type) *)
+Theorem C12_planes : forall dim : nat,
+  length (rotation_planes dim) = no_of_angles dim /\
+  Forall (fun pl => (fst pl < snd pl < dim)%nat) (rotation_planes dim).
+Proof. exact planes_facts. Qed.
+Print Assumptions C12_planes.
+
+(* padding rules: angles are truncated / filled with 0 on the right, ratios truncated / filled with 1 on the LEFT
+   (any number type) *)
+Theorem C12_padding : forall (T : Type) (O : NumOps T) (dim : nat) (angles anis : list T),
+  length (set_angles O dim angles) = no_of_angles dim /\
+  (forall k, (k < no_of_angles dim)%nat -> nth k (set_angles O dim angles) (n0 O) = nth k angles (n0 O)) /\
+  length (set_anis O dim anis) = (dim - 1)%nat /\
+  ((length anis <= dim - 1)%nat -> forall k, (k < dim - 1)%nat ->
+     nth k (set_anis O dim anis) (n1 O)
+     = if Nat.ltb k (dim - 1 - length anis) then n1 O else nth (k - (dim - 1 - length anis)) anis (n1 O)).
+Proof. exact @padding_facts. Qed.
+Print Assumptions C12_padding.
+
+Theorem C12_givens_orthogonal : forall (n p q : nat) (a : R), (p < q < n)%nat ->
+  let G := givens_rotation Rops n (p, q) a in
+  matmul Rops (transpose Rops G) G = eye Rops n /\ matmul Rops G (transpose Rops G) = eye Rops n.
+Proof. exact givens_orthogonal. Qed.
+Print Assumptions C12_givens_orthogonal.
+
+(* every dimension, every angle list of every length *)
 Theorem C12_rotate_orthogonal : forall (n : nat) (angles : list R), (0 < n)%nat ->
   let Rm := matrix_rotate Rops n angles in
   matmul Rops (transpose Rops Rm) Rm = eye Rops n /\ matmul Rops Rm (transpose Rops Rm) = eye Rops n.
 Proof. exact rotate_orthogonal. Qed.
 Print Assumptions C12_rotate_orthogonal.
+
+Theorem C12_derotate_is_transpose : forall (n : nat) (angles : list R), (0 < n)%nat ->
+  matrix_derotate Rops n angles = transpose Rops (matrix_rotate Rops n angles).
+Proof. exact derotate_is_transpose. Qed.
+Print Assumptions C12_derotate_is_transpose.
+
+Theorem C12_derotate_rotate_identity : forall (n : nat) (angles : list R), (0 < n)%nat ->
+  matmul Rops (matrix_derotate Rops n angles) (matrix_rotate Rops n angles) = eye Rops n /\
+  matmul Rops (matrix_rotate Rops n angles) (matrix_derotate Rops n angles) = eye Rops n.
+Proof. exact derotate_rotate. Qed.
+Print Assumptions C12_derotate_rotate_identity.
+
+Theorem C12_stretch_inverse : forall (dim : nat) (anis : list R), (0 < dim)%nat -> Forall (fun a => 0 < a) anis ->
+  matmul Rops (matrix_isotropify Rops dim anis) (matrix_anisotropify Rops dim anis) = eye Rops dim /\
+  matmul Rops (matrix_anisotropify Rops dim anis) (matrix_isotropify Rops dim anis) = eye Rops dim.
+Proof. exact stretch_inverse. Qed.
+Print Assumptions C12_stretch_inverse.
+
+Theorem C12_iso_aniso_inverse : forall (dim : nat) (angles anis : list R), (0 < dim)%nat -> Forall (fun a => 0 < a) anis ->
+  matmul Rops (matrix_isometrize Rops dim angles anis) (matrix_anisometrize Rops dim angles anis) = eye Rops dim /\
+  matmul Rops (matrix_anisometrize Rops dim angles anis) (matrix_isometrize Rops dim angles anis) = eye Rops dim.
+Proof. exact iso_aniso_inverse. Qed.
+Print Assumptions C12_iso_aniso_inverse.
+
+(* CovModel.isometrize / anisometrize on (dim, n) position arrays: both compositions are the identity *)
+Theorem C12_positions_round_trip : forall (dim : nat) (angles anis : list R) (n : nat) (pos : list (list R)),
+  (0 < dim)%nat -> Forall (fun a => 0 < a) anis -> wfm dim n pos ->
+  isometrize Rops dim angles anis (anisometrize Rops dim angles anis pos) = pos /\
+  anisometrize Rops dim angles anis (isometrize Rops dim angles anis pos) = pos.
+Proof. exact positions_round_trip. Qed.
+Print Assumptions C12_positions_round_trip.
+
+(* proper rotation: explicit determinants, dims 1, 2, 3 *)
+Theorem C12_rotate_det_one : forall angles : list R,
+  matrix_rotate Rops 1 angles = [[1]] /\ det2 (mof (matrix_rotate Rops 2 angles)) = 1 /\
+  det3 (mof (matrix_rotate Rops 3 angles)) = 1.
+Proof. exact rotate_det_one. Qed.
+Print Assumptions C12_rotate_det_one.
+
+(* 2-D: counter-clockwise by the first angle *)
+Theorem C12_rotate_2d_ccw : forall angles : list R,
+  matrix_rotate Rops 2 angles
+  = let a := nth 0 angles 0 in [[cos a; - sin a]; [sin a; cos a]].
+Proof. exact rotate_2d. Qed.
+Print Assumptions C12_rotate_2d_ccw.
+
+(* 3-D: Rx(roll) Ry(pitch) Rz(yaw), angles = (yaw, pitch, roll) *)
+Theorem C12_rotate_3d_convention : forall angles : list R,
+  let a := nth 0 angles 0 in let b := nth 1 angles 0 in let c := nth 2 angles 0 in
+  matrix_rotate Rops 3 angles
+  = matmul Rops [[1; 0; 0]; [0; cos c; - sin c]; [0; sin c; cos c]]
+      (matmul Rops [[cos b; 0; sin b]; [0; 1; 0]; [- sin b; 0; cos b]]
+                   [[cos a; - sin a; 0]; [sin a; cos a; 0]; [0; 0; 1]]).
+Proof. exact rotate_3d. Qed.
+Print Assumptions C12_rotate_3d_convention.
+
+(* isometrize (t * i-th main axis) = (t / ratio_i) e_i *)
+Theorem C12_main_axis_scale : forall (dim : nat) (angles anis : list R) (i : nat) (t : R),
+  (0 < dim)%nat -> Forall (fun a => 0 < a) anis -> (i < dim)%nat ->
+  let ax := arow (rotated_main_axes Rops dim angles) i in
+  isometrize Rops dim angles anis (map (fun x => [t * x]) ax)
+  = mkmat dim 1 (fun k _ => if Nat.eqb k i then t / ratio dim anis i else 0).
+Proof. exact main_axis_scale. Qed.
+Print Assumptions C12_main_axis_scale.
+
+(* _get_iso_rad = Euclidean norm of the main-axis components divided by the ratios *)
+Theorem C12_iso_rad : forall (dim : nat) (angles anis : list R) (n : nat) (pos : list (list R)),
+  (0 < dim)%nat -> Forall (fun a => 0 < a) anis -> wfm dim n pos ->
+  get_iso_rad Rops dim angles anis pos
+  = map (fun j => sqrt (sumf dim (fun k =>
+        Rsqr (sumf dim (fun l => mof (main_axes Rops dim angles) k l * mof pos l j) / ratio dim anis k)))) (seq 0 n).
+Proof. exact iso_rad_spec. Qed.
+Print Assumptions C12_iso_rad.
+
+(* rotation alone never changes a distance *)
+Theorem C12_iso_rad_rotation_invariant : forall (dim : nat) (angles anis : list R) (n : nat) (pos : list (list R)),
+  (0 < dim)%nat -> Forall (fun a => a = 1) anis -> wfm dim n pos ->
+  get_iso_rad Rops dim angles anis pos = col_norms Rops pos.
+Proof. exact iso_rad_rotation_invariant. Qed.
+Print Assumptions C12_iso_rad_rotation_invariant.
+
+(* along main axis i the model has length scale len_scale * anis[i-1] = len_scale_vec[i] *)
+Theorem C12_main_axis_len_scale : forall (dim : nat) (angles anis : list R) (ls : R) (i : nat) (t : R),
+  (0 < dim)%nat -> Forall (fun a => 0 < a) anis -> (i < dim)%nat -> 0 < ls ->
+  map (fun r => r / ls)
+      (get_iso_rad Rops dim angles anis (map (fun x => [t * x]) (arow (rotated_main_axes Rops dim angles) i)))
+  = [Rabs t / aget 0 (len_scale_vec Rops dim ls (set_anis Rops dim anis)) i].
+Proof. exact main_axis_len_scale. Qed.
+Print Assumptions C12_main_axis_len_scale.
+
+(* cov_axis(t, i) and cov_spatial(t * main axis i) evaluate the isotropic covariance at the same radius *)
+Theorem C12_axis_arg_is_radius : forall (dim : nat) (angles anis : list R) (i : nat) (t : R),
+  (0 < dim)%nat -> Forall (fun a => 0 < a) anis -> (i < dim)%nat -> 0 <= t ->
+  get_iso_rad Rops dim angles anis (map (fun x => [t * x]) (arow (rotated_main_axes Rops dim angles) i))
+  = [axis_arg Rops (set_anis Rops dim anis) t i].
+Proof. exact axis_arg_is_radius. Qed.
+Print Assumptions C12_axis_arg_is_radius.
+
+(* pipelines: the isotropic twin (no angles, no ratios) applied to the transformed positions returns them unchanged,
+   so pre_pos hands the same isotropic positions to the generator / kriging system in both computations *)
+Theorem C12_pipeline_isotropic_twin : forall (dim : nat) (angles anis : list R) (n : nat) (pos : list (list R)),
+  (0 < dim)%nat -> wfm dim n pos ->
+  isometrize Rops dim [] [] (isometrize Rops dim angles anis pos) = isometrize Rops dim angles anis pos.
+Proof. exact isotropic_twin. Qed.
+Print Assumptions C12_pipeline_isotropic_twin.
+
+Theorem C12_hypotheses_satisfiable :
+  (0 < 3)%nat /\ Forall (fun a => 0 < a) [2; / 2] /\ wfm 3 2 [[1; 2]; [3; 4]; [5; 6]] /\
+  Forall (fun a : R => a = 0) [] /\ Forall (fun a => a = 1) [1; 1] /\ (0 < 1 < 3)%nat.
+Proof. exact hypotheses_satisfiable. Qed.
+Print Assumptions C12_hypotheses_satisfiable.
